@@ -102,7 +102,15 @@ class Points:
                     self.points.append(("null", path + (key,), None, nt))
                 self.points.append(("kind", path + (key,), "scalar", nt))
                 continue
-            self.value(fdef.type, info, data[key], path + (key,), 0, in_list, cond=info["conditional"])
+            # the types the OPERATION gives this key (an implementing object may narrow an interface field; a field
+            # selected on the interface still has the interface's type): judged against the loosest of them
+            self.value(self.loosest(opwalk.static_field_types(self.schema, info, runtime) or [fdef.type]), info, data[key],
+                       path + (key,), 0, in_list, cond=info["conditional"])
+
+    @staticmethod
+    def loosest(types):
+        """of several covariant variants of one field type, the one with the fewest non-null markers"""
+        return min(types, key=lambda t: str(t).count("!"))
 
     def value(self, gtype, info, value, path, depth, in_list, cond):
         t = gtype
@@ -128,7 +136,7 @@ class Points:
             self.points.append(("kind", path, "object", nt or is_abstract_type(named)))
             rt = self.schema.type_map[self.rec["rtypes"][path]]
             sets = opwalk.merged_selection(info["nodes"])
-            self.obj(opwalk.Merged(sets), rt, value, path, in_list or depth > 0, is_abstract_type(named))
+            self.obj(opwalk.Merged(sets, static_type=named.name), rt, value, path, in_list or depth > 0, is_abstract_type(named))
             return
         if is_any:
             return
@@ -225,7 +233,19 @@ class Image:
             fdef = opwalk.field_def(self.schema, runtime, info["nodes"][0])
             if fdef is None:
                 continue
-            self.shape(f"{cls.__name__}.{name}", f.annotation, fdef.type, info["conditional"], info, 0)
+            cands = opwalk.static_field_types(self.schema, info, runtime) or [fdef.type]
+            cands = list({str(t): t for t in cands + [fdef.type]}.values())
+            # accepted images: the static type(s) the operation gives the key, or the runtime object's own (narrower) type
+            trial = []
+            for t in cands:
+                n0 = len(self.bad)
+                self.shape(f"{cls.__name__}.{name}", f.annotation, t, info["conditional"], info, 0)
+                trial.append(self.bad[n0:])
+                del self.bad[n0:]
+                if not trial[-1]:
+                    break
+            if all(trial):
+                self.bad.extend(trial[0])
 
     def shape(self, where, ann, gtype, conditional, info, depth):
         opt, inner = split_optional(ann)
@@ -263,7 +283,7 @@ class Image:
         if not classes or not all(isinstance(c, type) and issubclass(c, pydantic.BaseModel) for c in classes):
             self.fail(f"{where}: {inner} is not a model class / union of model classes for {named.name}", "leaf_mismatch")
             return
-        sets = opwalk.Merged(opwalk.merged_selection(info["nodes"]))
+        sets = opwalk.Merged(opwalk.merged_selection(info["nodes"]), static_type=named.name)
         if is_abstract_type(named):
             possible = {t.name: t for t in self.schema.get_possible_types(named)}
             covered = set()
